@@ -12,6 +12,9 @@ Local Open Scope list_scope.
 Definition phead {A} (l : list A) : res A :=
   match l with x :: _ => Ok x | [] => Err IndexErr end.
 
+(* xs[-1] *)
+Definition plast {A} (l : list A) : res A := phead (rev l).
+
 Section FunSites.
   Context {N : NumOps}.
 
